@@ -99,6 +99,27 @@ def swap_cases(rng, tier):
             cases.append(swap_case(x, y, a, c, "directed-window"))
     for (x, y, a) in overflow_inputs(rng, 15 * n):
         cases.append(swap_case(x, y, a, rng.choice(rs), "directed-overflow"))
+    # the region where ask*offer*10^18 no longer fits 256 bits (the unchanged code aborts there) COMBINED with the residue
+    # window of the 18-digit quotient and a commission that floors to nothing: if a change prices such trades at all, it pays
+    # one unit too much exactly here (C01-agent19).  x*y = r (mod x+a) with r in [1, (x+a)/10^18) is solved for y.
+    import math
+    for x in (10 ** 24 + 7, 3 * 10 ** 21 + 1, 2 ** 70 + 1):
+        for mult in (20, 7, 3):
+            a = x * mult + 3
+            m_ = x + a
+            if math.gcd(x, m_) != 1:
+                continue
+            inv = pow(x, -1, m_)
+            for r in (1, 2, max(1, m_ // D - 1)):
+                y0 = (r * inv) % m_
+                lo = (2 ** 256 // D) // a + 1                      # ask*offer*10^18 >= 2^256
+                hi = min(2 ** 128 - 1, (2 ** 256 // D - 1) // x, (2 ** 128 - 1) * x // a)   # x*y fits; spread below 2^128
+                if lo >= hi:
+                    continue
+                y = y0 + ((lo - y0) // m_ + 1) * m_
+                if y < hi:
+                    for c in (0, 1):
+                        cases.append(swap_case(x, y, a, c, "directed-overflow"))
     for (x, y, a) in small_inputs():
         cases.append(swap_case(x, y, a, rng.choice([0, 1, 3 * 10 ** 15, D - 1, D]), "directed-small"))
     # a tiny offer pool against a huge ask pool and offer: the spread a*y/x - gross is the one quantity of compute_swap that
